@@ -4,7 +4,7 @@ set -u
 patch=$(readlink -f "$1"); prop=$2; tier=${3:-quick}
 git -C /repo diff --quiet || { echo "/repo is dirty"; exit 3; }
 git -C /repo apply "$patch" || { echo "patch does not apply"; exit 3; }
-/verif/check "$prop" --tier "$tier" > /tmp/rigverif-mutant.out 2>&1
+VERIF_WALL_LIMIT=${VERIF_WALL_LIMIT:-900} timeout 2400 /verif/check "$prop" --tier "$tier" > /tmp/rigverif-mutant.out 2>&1
 rc=$?
 git -C /repo checkout -- .
 grep -E "VIOLATION|KNOWN-FINDING|MACHINERY|OK|FAIL" /tmp/rigverif-mutant.out | head -8
